@@ -25,31 +25,49 @@ RULE = ('place cases: memory layout (slot hashes, reference counts, capacities, 
         'lengths, run through the real find_place_for_segments_in_memory.  Small scope = slots over hashes {1,2,3} x '
         'capacities {192,208,384} x refcounts {0,1,2}, new segments over hashes {1,2,3,9} x lengths {192,208,384}, one '
         'total capacity per layout drawn from the values around the two RuntimeError thresholds.  quick: the scopes '
-        '(slots,new) up to (4,3) sampled uniformly (200-400 each); thorough: (0,1..3) (1,1..3) (2,1) (2,2) (3,1) complete, '
-        'the others sampled (50-100 k each).  Plus random layouts with <= 7 slots / <= 5 new segments (duplicates, known '
+        '(slots,new) up to (4,3) sampled uniformly (200-400 each); thorough: (0,1..3) (1,1..3) (2,1) (2,2) (3,1) complete '
+        'through Coq, (3,2) and (2,3) swept completely (4.09 M layouts) against the python oracle of the four clauses '
+        '(obligation sweep_small_scopes_...; rejected layouts go through Coq) and sampled (50-60 k) through Coq, the others '
+        'sampled (60-100 k each).  Plus random layouts with <= 7 slots / <= 5 new segments (duplicates, known '
         'hashes, lengths equal to / 16 below / above free capacities), larger random layouts (<= 30 slots, <= 12 new), a '
         'malformed stream (zero / negative lengths and capacities, negative reference counts, negative total capacity; '
         'compared with the model, the specification applies only when all reference counts are >= 0) and the driver\'s '
-        'dtypes (uint32 capacities, incl. total capacity below the reserved capacity).  hist cases: random histories of '
-        '<= 12 operations (upload / forced upload / free_program / remove / cleanup / clear; programs share and re-use '
-        'segment hashes; total capacity 800..100000) run through the real TaborChannelPair bookkeeping against a fake '
-        'instrument; observation after every operation.  Non-trivial = place case with a slot, an unknown segment and a '
-        'decision or Fragmentation refusal; history that reaches >= 3 slots with a known program.')
+        'dtypes (uint32 capacities, incl. total capacity below the reserved capacity).  place:impl:feature: the copy of '
+        'the placement in feature_awg/tabor.py (method of TaborChannelTuple, unstable default sort, MemoryError) on the '
+        'driver\'s dtypes; exact comparison with the model where capacities and lengths are pairwise distinct, the four '
+        'clauses always.  prim cases: every numpy primitive the model relies on (stable argsort, argsort()[::-1] picked '
+        'through flatnonzero, flatnonzero, boolean-mask indexing, fancy indexing, searchsorted left/right with sorter, '
+        'argmax of booleans and of a reversed view, a[idx] += 1 with duplicate indices, a[idx] -= 1 with negative '
+        'indices, np.sum(a[m] + 16), w[m] = v, flatnonzero(r > 0)[-1] + 1 and r[:k], a[i] = v) and find_positions, on numpy '
+        'itself: all arrays over 3 key values (all tie patterns) up to length 4 (quick) / 6 (thorough), all masks up to '
+        'length 5 / 7, empty arrays in every dtype, random arrays up to 40 elements in int64/uint32/uint16/int32/uint64.  '
+        'hist cases: random histories of <= 12 operations (upload / forced upload / free_program / remove / cleanup / '
+        'clear; programs share and re-use segment hashes; total capacity 800..100000) run through the real bookkeeping '
+        'of BOTH Tabor drivers (hardware/awgs/tabor.py::TaborChannelPair, hardware/feature_awg/tabor.py::TaborChannelTuple + '
+        'TaborProgramManagement) against a fake instrument; observation after every operation.  Non-trivial = place '
+        'case with a slot, an unknown segment and a decision or Fragmentation refusal; history that reaches >= 3 slots '
+        'with a known program; primitive on >= 2 elements.')
 TRUSTED = [
     'Coq 8.16.1 kernel + vm_compute (no native_compute)',
-    'numpy primitives (argsort kind=stable, searchsorted, flatnonzero, argmax, boolean/fancy indexing, a[idx] += 1) '
-    'behave as their list models in coq/C19/Model.v; tied only by the correspondence check',
+    'numpy primitives (argsort kind=stable, searchsorted, flatnonzero, argmax, boolean/fancy indexing, a[idx] += 1, ...) '
+    'behave as their list models in coq/C19/Model.v + Driver.v: tied by a dedicated correspondence stream against numpy '
+    'itself per primitive (prim cases: model output AND an independent specification, e.g. permutation + lexicographic '
+    'order for the stable argsort) in addition to the end-to-end comparison; not proved about numpy',
     'harness: generators, exact integer printing, classification of the two RuntimeErrors by message text',
-    'driver part: hardware/awgs/tabor.py is imported against an empty stand-in for tabor_control and run against '
-    'harness/props/c19_driver.py::FakeDevice (abstract slot -> content memory interpreting :TRAC:SEL/:TRAC:DATA/TRAC:DEL); '
-    'TaborProgram / make_compatible / make_combined_wave are replaced by stand-ins; no real instrument or simulator',
+    'driver part: hardware/awgs/tabor.py and hardware/feature_awg/tabor.py are imported against empty stand-ins for '
+    'tabor_control / pyvisa and run against harness/props/c19_driver.py::FakeDevice (abstract slot -> content memory '
+    'interpreting :TRAC:SEL/:TRAC:DATA/TRAC:DEL); TaborProgram / make_compatible / make_combined_wave are replaced by '
+    'stand-ins, sequencer tables / armed program / set_repetition_mode are switched off; no real instrument or simulator',
+    'thorough tier: the complete sweep of the scopes (3,2) and (2,3) is judged by the python oracle of the four clauses '
+    '(harness/props/c19.py::clauses), not by Coq; samples of the same scopes are judged by both',
 ]
 ASSUMPTIONS = [
-    'the three memory arrays have equal length and the two new-segment arrays have equal length (maintained by the driver; '
-    'the model returns BadInput otherwise)',
+    'the three memory arrays have equal length and the two new-segment arrays have equal length (maintained by the driver, '
+    'theorem C19_history_bookkeeping; the model returns BadInput otherwise)',
     'sizes stay far below 2^32 / 2^63 (numpy sums of uint32 / int64 arrays do not wrap); the one wrap-around that was '
-    'reachable with realistic sizes (total_capacity - np.sum(uint32 capacities) < 0) was repaired in /repo 27dd4b7 and is '
-    'exercised by the dtype:drv stream',
+    'reachable with realistic sizes (total_capacity - np.sum(uint32 capacities) < 0) was repaired in /repo 27dd4b7 '
+    '(shared function) and 4f02520 (copy in feature_awg/tabor.py) and is exercised by the dtype:drv streams',
+    'capacity theorem: segment lengths are >= 0 (numbers of points; unsigned in the driver) and total capacity >= 192',
 ]
 
 HASHES = [1, 2, 3]
@@ -227,45 +245,60 @@ def pregen(ctx):
     against the python oracle of the four clauses; rejected layouts are handed to gen_cases and go through Coq."""
     if ctx.get('tier') != 'thorough':
         return []
-    import random
     import time
-    rng = random.Random(ctx.get('seed', 0) or 0)
     t0 = time.time()
-    n, rejected = sweep_scopes([(3, 2), (2, 3)], rng)
+    n, rejected = sweep_scopes([(3, 2), (2, 3)], ctx.get('seed', 0) or 0)
     ctx['c19_sweep_rejected'] = rejected[:50]
     return [{'name': 'sweep_small_scopes_3x2_2x3_python_oracle', 'ok': True,
              'detail': '%d layouts (complete), %d rejected by the python oracle of the four clauses, %.0f s'
                        % (n, len(rejected), time.time() - t0)}]
 
 
-def sweep_scopes(scopes, rng, limit=None):
+def _sweep_chunk(arg):
+    """one contiguous index range of one small scope: run the implementation, evaluate the python oracle"""
+    import random
     import warnings
     import numpy as np
     from qupulse._program.tabor import find_place_for_segments_in_memory
+    nslots, nnew, lo, hi, seed = arg
+    rng = random.Random(seed * 1000003 + lo)
     n = 0
     rejected = []
+    for idx in range(lo, hi):
+        hashes, refs, caps, nh, nl = _scope_item(nslots, nnew, idx)
+        total = rng.choice(_totals(rng, refs, caps, nh, nl, hashes))
+        case = _mk(hashes, refs, caps, total, nh, nl)
+        try:
+            with warnings.catch_warnings():
+                warnings.simplefilter('ignore')
+                w2s, ta, ti = find_place_for_segments_in_memory(
+                    current_segment_hashes=np.asarray(hashes, dtype=np.int64),
+                    current_segment_references=np.asarray(refs, dtype=np.int64),
+                    current_segment_capacities=np.asarray(caps, dtype=np.int64), total_capacity=total,
+                    new_segment_hashes=np.asarray(nh, dtype=np.int64), new_segment_lengths=np.asarray(nl, dtype=np.int64))
+            obs = {'ret': [w2s.tolist(), ta.tolist(), ti.tolist()]}
+        except RuntimeError:
+            obs = {'refused': 'other'}
+        except Exception as e:
+            obs = {'crash': repr(e)}
+        n += 1
+        if 'crash' in obs or clauses(case, obs):
+            rejected.append(case)
+    return n, rejected[:20]
+
+
+def sweep_scopes(scopes, seed, limit=None, procs=4):
+    import multiprocessing
+    jobs = []
     for nslots, nnew in scopes:
-        for hashes, refs, caps, nh, nl in _small_scope(nslots, nnew):
-            total = rng.choice(_totals(rng, refs, caps, nh, nl, hashes))
-            case = _mk(hashes, refs, caps, total, nh, nl)
-            try:
-                with warnings.catch_warnings():
-                    warnings.simplefilter('ignore')
-                    w2s, ta, ti = find_place_for_segments_in_memory(
-                        current_segment_hashes=np.asarray(hashes, dtype=np.int64),
-                        current_segment_references=np.asarray(refs, dtype=np.int64),
-                        current_segment_capacities=np.asarray(caps, dtype=np.int64), total_capacity=total,
-                        new_segment_hashes=np.asarray(nh, dtype=np.int64), new_segment_lengths=np.asarray(nl, dtype=np.int64))
-                obs = {'ret': [w2s.tolist(), ta.tolist(), ti.tolist()]}
-            except RuntimeError:
-                obs = {'refused': 'other'}
-            except Exception as e:
-                obs = {'crash': repr(e)}
-            n += 1
-            if 'crash' in obs or clauses(case, obs):
-                rejected.append(case)
-            if limit and n >= limit:
-                return n, rejected
+        size = _scope_size(nslots, nnew) if limit is None else min(limit, _scope_size(nslots, nnew))
+        step = 50000
+        jobs += [(nslots, nnew, lo, min(lo + step, size), seed) for lo in range(0, size, step)]
+    n, rejected = 0, []
+    with multiprocessing.get_context('fork').Pool(procs) as pool:
+        for k, r in pool.imap_unordered(_sweep_chunk, jobs):
+            n += k
+            rejected += r
     return n, rejected
 
 
@@ -686,14 +719,19 @@ MANIFEST = {
     'level_text': 'Proof (decision function): for ALL memory layouts and new-segment lists the Gallina model of '
                   'find_place_for_segments_in_memory / find_positions, when it returns a decision, satisfies the four '
                   'clauses (reuse only on equal hash; overwritten slots unreferenced, large enough, pairwise distinct; '
-                  'appended segments fit behind the last used slot; every segment accounted for exactly once).  The model '
-                  'is tied to the code by an exact correspondence check against the real function.',
-    'level_note': 'History theorem (every known program\'s slots hold its own data and stay referenced, over all '
-                  'upload/free/remove/cleanup/clear histories) is proved about a hand-written model of the driver '
-                  'bookkeeping; hardware/awgs/tabor.py needs tabor_control, so the model is tied to it only by running the '
-                  'real class against a fake instrument with sampling replaced by stand-ins.  Capacity over-commitment '
-                  'after upload(force=True) is a listed known finding (guarded theorem).  Trusted: Coq kernel, numpy '
-                  'primitives as list models, harness, fake instrument.',
-    'technique': 'Coq proof (loop invariants over list models of the numpy code) + correspondence check',
+                  'appended segments fit behind the last used slot; every segment accounted for exactly once).  Proof '
+                  '(histories): over all upload/forced upload/free/remove/cleanup/clear histories every known program\'s '
+                  'slots hold its own data and stay referenced, and the defined slots never need more than the total '
+                  'capacity (unguarded since /repo 4f02520).  The models are tied to the code by exact correspondence '
+                  'checks against the real function, against the real bookkeeping of both Tabor drivers on a fake '
+                  'instrument, and per numpy primitive against numpy.',
+    'level_note': 'The history theorems are about a hand-written model of the driver bookkeeping; both driver files need '
+                  'tabor_control, so the model is tied to them only by running the real classes against a fake instrument '
+                  'with sampling replaced by stand-ins.  The copy of the placement inside feature_awg/tabor.py sorts '
+                  'unstably: compared exactly only on tie-free inputs, four clauses always.  A liveness remark (spurious '
+                  'Fragmentation refusal, C19_liveness_refuted) is recorded but is not part of the property.  Trusted: '
+                  'Coq kernel, numpy primitives as list models (tested per primitive, not proved), harness, fake '
+                  'instrument.',
+    'technique': 'Coq proof (loop invariants over list models of the numpy code; history invariants) + correspondence check',
     'design_ref': 'DESIGN.md §5 C19',
 }
